@@ -201,13 +201,19 @@ class Decimal(SimpleModel):
 
     @staticmethod
     def validate_native(cls, value):
-        return SimpleModel.validate_native(cls, value) and (
-            value is None or (
-                value >  cls.Attributes.gt and
-                value >= cls.Attributes.ge and
-                value <  cls.Attributes.lt and
-                value <= cls.Attributes.le
-            ))
+        try:
+            return SimpleModel.validate_native(cls, value) and (
+                value is None or (
+                    value >  cls.Attributes.gt and
+                    value >= cls.Attributes.ge and
+                    value <  cls.Attributes.lt and
+                    value <= cls.Attributes.le
+                ))
+
+        except (TypeError, decimal.InvalidOperation):
+            # NaN, or not a number at all: what can't be compared to the
+            # bounds is not within them.
+            return False
 
 
 class Double(Decimal):
